@@ -53,7 +53,8 @@ def main():
     allchecks = "--all-checks" in sys.argv
     verbose = "-v" in sys.argv or "--verbose" in sys.argv
     checks = existing_checks()
-    seeds = sorted(os.listdir(os.path.join(VERIF, "seeded")))
+    seeds = sorted(d for d in os.listdir(os.path.join(VERIF, "seeded"))
+                   if os.path.isdir(os.path.join(VERIF, "seeded", d)))
     if args:
         seeds = [s for s in seeds if s.split("-")[0] in args]
     jobs = []
